@@ -479,6 +479,38 @@ pub fn scope_and_size_family() -> Vec<(String, Vec<Form>)> {
             Form::Expr(app("shadowing", vec![Expr::Int(5)])),
         ],
     ));
+    // only #f is false, wherever the test sits (top level, tail position of a body, operand)
+    let nil = || Expr::Quote(Datum::List(vec![], None));
+    let truthy_forms: Vec<(&str, Box<dyn Fn(Expr) -> Expr>)> = vec![
+        ("or", Box::new(move |t| Expr::Or(vec![t, kw("second")]))),
+        ("and", Box::new(move |t| Expr::And(vec![t, kw("last")]))),
+        ("cond", Box::new(move |t| Expr::Cond(vec![Clause::Then(t, vec![kw("first")])], Some(vec![kw("else")])))),
+        ("when", Box::new(move |t| Expr::When(Box::new(t), vec![kw("ran")]))),
+        ("unless", Box::new(move |t| Expr::Unless(Box::new(t), vec![kw("ran")]))),
+        ("cond =>", Box::new(move |t| Expr::Cond(vec![Clause::Arrow(t, var("list"))], Some(vec![kw("else")])))),
+    ];
+    for (name, mk) in &truthy_forms {
+        for (tname, test) in [("the empty list", nil()), ("zero", Expr::Int(0)), ("an unspecified value", Expr::If(Box::new(Expr::Bool(false)), Box::new(Expr::Bool(false)), None))] {
+            if *name == "cond =>" && tname == "an unspecified value" {
+                continue;
+            }
+            out.push((format!("{} with {} as test, at top level", name, tname), vec![Form::Expr(mk(test.clone()))]));
+            out.push((format!("{} with {} as test, last form of a procedure body", name, tname), vec![Form::Expr(Expr::App(Box::new(lam0(mk(test.clone()))), vec![]))]));
+            out.push((format!("{} with {} as test, last form of a let body", name, tname), vec![Form::Expr(Expr::Let(vec![("q".into(), Expr::Int(1))], body1(mk(test.clone()))))]));
+        }
+    }
+    // case selects with eqv?: an inexact key never selects an exact datum and vice versa
+    let hitk = |s: &str| CaseBody::Exprs(vec![kw(s)]);
+    for (kname, key) in [("2.0", Expr::Real("2.0".into())), ("(* 1.0 3)", app("*", vec![Expr::Real("1.0".into()), Expr::Int(3)])), ("2", Expr::Int(2)), ("1/2", Expr::Ratio(1, 2)), ("0.5", Expr::Real("0.5".into()))] {
+        out.push((
+            format!("case: key {} against exact and inexact data", kname),
+            vec![Form::Expr(Expr::Case(
+                Box::new(key),
+                vec![(vec![Datum::Int(1), Datum::Int(2), Datum::Int(3), Datum::Ratio(1, 2)], hitk("exact")), (vec![Datum::Real("2.0".into()), Datum::Real("0.5".into())], hitk("inexact"))],
+                Some(hitk("other")),
+            ))],
+        ));
+    }
     for n in [257usize, 258, 300, 700] {
         let ints = |n: usize| (1..=n as i32).map(Expr::Int).collect::<Vec<_>>();
         let mut seq = ints(n);
